@@ -68,7 +68,7 @@ pub fn cases(prop: &str, tier: Tier, seed: u64) -> Vec<CaseDesc> {
             out.extend(with_scenario(crate::census::op_census_specs(), "rt:emit,gc"));
             out.extend(with_scenario(crate::census::attr_specs(), "rt:emit,gc"));
             out.extend(with_scenario(disk_corpus(false), "rt:emit,gc"));
-            for (p, nq, nt) in [("full", 3000, 150_000), ("mvp", 800, 30_000), ("stable", 800, 30_000), ("gcgraph", 1500, 60_000), ("names", 600, 20_000), ("customs", 600, 20_000)] {
+            for (p, nq, nt) in [("full", 3000, 150_000), ("mvp", 800, 30_000), ("stable", 800, 30_000), ("gcgraph", 1500, 60_000), ("names", 600, 20_000), ("customs", 600, 20_000), ("oddknown", 300, 10_000)] {
                 out.extend(with_scenario(g(p, nq, nt), "rt:emit,gc"));
             }
             // generated well-formed edit scripts through the public builder / edit APIs
@@ -94,7 +94,7 @@ pub fn cases(prop: &str, tier: Tier, seed: u64) -> Vec<CaseDesc> {
             base.extend(crate::census::op_census_specs());
             base.extend(corpus::gcedge_specs());
             base.extend(crate::census::leb_specs(false).into_iter().filter(|s| !s.contains(":16384:") && !s.contains(":16383:")));
-            for (p, n) in [("full", if q { 1500 } else { 40_000 }), ("mvp", if q { 300 } else { 10_000 }), ("stable", if q { 400 } else { 10_000 }), ("customs", if q { 200 } else { 5_000 }), ("names", if q { 200 } else { 5_000 })] {
+            for (p, n) in [("full", if q { 1500 } else { 40_000 }), ("mvp", if q { 300 } else { 10_000 }), ("stable", if q { 400 } else { 10_000 }), ("customs", if q { 200 } else { 5_000 }), ("names", if q { 200 } else { 5_000 }), ("oddknown", if q { 300 } else { 8_000 })] {
                 base.extend(crate::gen::gen_specs(p, seed, n));
             }
             for fname in FEATURE_NAMES {
@@ -259,6 +259,7 @@ pub fn cases(prop: &str, tier: Tier, seed: u64) -> Vec<CaseDesc> {
         "C12" => {
             out.extend(with_scenario(disk_corpus(false), "rt:emit,emit2,gc"));
             out.extend(with_scenario(g("customs", 4000, 150_000), "rt:emit,emit2,gc"));
+            out.extend(with_scenario(g("oddknown", 500, 20_000), "rt:emit,emit2,gc"));
             // the same with DWARF emission on (the .debug* sections mixed between the unknown ones are then re-emitted)
             out.extend(with_scenario(crate::gen::gen_specs("customs", seed ^ 0xd3b, if q { 2000 } else { 100_000 }), "rt:emit,emit2,gc;cfg=27"));
         }
